@@ -170,6 +170,9 @@ func main() {
 	for _, s := range vschema.Graph() {
 		emit("graph", s)
 	}
+	for _, s := range vschema.Dup() {
+		emit("dup", s)
+	}
 	for _, s := range vschema.Names() {
 		emit("names", s)
 	}
